@@ -280,7 +280,11 @@ func VerifC05Prune() {
 		tps[i] = tp
 	}
 	v := 1 + vChoice("val", 2)
-	switch vChoice("removal", 3) {
+	switch vChoice("removal", 4) {
+	case 3:
+		k := vChoice("victim", 2)
+		t.Set(tps[k], v)
+		m.set(tps[k], v)
 	case 0:
 		k := vChoice("victim", 2)
 		t.Remove(tps[k], v)
